@@ -698,6 +698,15 @@ struct Exec : public crab::cfg::statement_visitor<label_t, number_t, varname_t> 
       m.outside("allocation size");
       return;
     }
+    if (m.cfg.remake_outside) {
+      // neutraliser of KF47: executions that re-allocate a reference variable
+      // that still holds an object are not judged
+      const Value *old = f.st.get(s.lhs());
+      if (old && old->k == Value::REF && old->obj != 0) {
+        m.outside("make_ref redefines a reference that holds an object (KF47 neutraliser)");
+        return;
+      }
+    }
     HeapObj o;
     o.base = mpz_class(4096) * (long)m.heap.size();
     o.size = size;
